@@ -1179,3 +1179,95 @@ def prune_candidates(spec):  # noqa: F811
     yield from drop_unreferenced(spec)
     yield from shrink_reference_lists(spec)
     yield from _value_prune(spec)
+
+
+# ------------------------------------------------------------ reach probes
+
+
+def reach_probes(spec) -> list:
+    """Which of the shapes named by the quantifiers of C01 / C02 a world has."""
+    out = set()
+    roles = {}  # user index -> set of roles
+
+    def role(u, r):
+        if u is not None:
+            roles.setdefault(u, set()).add(r)
+
+    for pool in POOLS:
+        for e in spec.get(pool, []):
+            if not isinstance(e, dict):
+                continue
+            for n in e.get("notes", []) or []:
+                role(n.get("created_by"), "note-author")
+            if "created_by" in e:
+                role(e.get("created_by"), "annotator")
+            for b in e.get("status_badges", []) or []:
+                role(b.get("owner"), "badge-owner")
+            if pool == "recordings":
+                for u in e.get("owners", []):
+                    role(u, "recording-owner")
+    for u, rs in roles.items():
+        if len(rs) == 1:
+            out.add(f"shape:user-only-as-{next(iter(rs))}")
+    tag_roles = {}
+
+    def trole(t, r):
+        tag_roles.setdefault(t, set()).add(r)
+
+    for pool in ("recordings", "se_annotations", "seq_annotations",
+                 "clip_annotations"):
+        for e in spec.get(pool, []):
+            for t in e.get("tags", []):
+                trole(t, "object")
+    for pool in ("se_predictions", "seq_predictions", "clip_predictions"):
+        for e in spec.get(pool, []):
+            for t, _p in e.get("tags", []):
+                trole(t, "prediction")
+    for t in spec["roots"]["annotation_project"].get("annotation_tags", []):
+        trole(t, "project-tags")
+    for t in spec["roots"]["evaluation_set"].get("evaluation_tags", []):
+        trole(t, "evaluation-tags")
+    for t, rs in tag_roles.items():
+        if len(rs) == 1 and "object" not in rs:
+            out.add(f"shape:tag-only-in-{next(iter(rs))}")
+    depth = {}
+    for i, q in enumerate(spec.get("sequences", [])):
+        depth[i] = 0 if q.get("parent") is None else depth[q["parent"]] + 1
+        if depth[i] >= 1:
+            out.add("shape:sequence-with-parent")
+        if depth[i] >= 2:
+            out.add("shape:sequence-parent-depth>=2")
+        if q.get("parent") is not None and not spec["sequences"][q["parent"]].get("sound_events"):
+            out.add("shape:parent-sequence-without-sound-events")
+    for a in spec.get("clip_annotations", []):
+        rec = spec["clips"][a["clip"]]["recording"]
+        for j in a.get("sound_events", []):
+            se = spec["sound_events"][spec["se_annotations"][j]["sound_event"]]
+            if se["recording"] != rec:
+                out.add("shape:sound-event-of-another-recording")
+    counts = {}
+    for a in spec.get("clip_annotations", []):
+        for j in a.get("sound_events", []):
+            counts[j] = counts.get(j, 0) + 1
+    if any(c > 1 for c in counts.values()):
+        out.add("shape:annotation-shared-by-two-parents")
+    se_users = {}
+    for pool, key in (("se_annotations", "sound_event"),
+                      ("se_predictions", "sound_event")):
+        for e in spec.get(pool, []):
+            se_users.setdefault(e[key], set()).add(pool)
+    for q in spec.get("sequences", []):
+        for j in q.get("sound_events", []):
+            se_users.setdefault(j, set()).add("sequence")
+    if any(len(v) >= 2 for v in se_users.values()):
+        out.add("shape:sound-event-shared-annotation/prediction/sequence")
+    for s_ in spec.get("sound_events", []):
+        g = s_.get("geometry")
+        out.add(f"shape:geometry-{g['type'] if g else 'none'}")
+    for r in spec.get("recordings", []):
+        te = r.get("time_expansion")
+        if te is not None and te < 1:
+            out.add("shape:time-expansion<1")
+        if te is not None and te > 1:
+            out.add("shape:time-expansion>1")
+    return sorted(out)
